@@ -104,7 +104,17 @@ class RegexGenerator:
                 exclude_letters += self._generate(opcode, val)
 
         letters = "".join(set(self._alphabet["letters"]) - set(exclude_letters))
+        if len(letters) == 0:
+            # the class excludes the whole alphabet: fall back to the first character it admits
+            letters = self._first_letter_not_in(exclude_letters)
         return self._random.random_choice(letters)
+
+    def _first_letter_not_in(self, exclude_letters: str) -> str:
+        excluded = set(exclude_letters)
+        for code in range(sys.maxunicode + 1):
+            if chr(code) not in excluded:
+                return chr(code)
+        raise ValueError("Negated character class excludes every character")
 
     def _generate_not_literal(self, value: int) -> str:
         return self._generate_not_in([(LITERAL, value)])
